@@ -289,5 +289,19 @@ def _run_pool(tasks, jobs=None):
     if jobs == 1 or len(tasks) <= 1:
         return [run_task(t) for t in tasks]
     ctxm = mp.get_context("fork")
-    with ctxm.Pool(jobs, maxtasksperchild=8) as pool:
-        return list(pool.imap_unordered(run_task, tasks))
+    limit = float(os.environ.get("H5V_TASK_TIMEOUT", "900"))
+    t_end = time.time() + limit
+    out = []
+    pool = ctxm.Pool(jobs, maxtasksperchild=8)
+    try:
+        pending = [(t, pool.apply_async(run_task, (t,))) for t in tasks]
+        for t, ar in pending:
+            try:
+                out.append(ar.get(timeout=max(1.0, t_end - time.time())))
+            except mp.TimeoutError:
+                out.append({"task": list(t[:3]), "target": t[1], "obligations": [], "paths": 0, "completed_paths": 0,
+                            "error": None, "out_of_reach": ["exploration exceeded %.0f s (undecided, not a violation)" % limit],
+                            "inlined": [], "assumed": [], "notes": [], "solver_ms": 0, "queries": 0, "wall_s": limit})
+    finally:
+        pool.terminate()
+    return out
